@@ -348,7 +348,7 @@ def check_wire(ctx: Ctx, inp) -> None:
     transport = inp.get("transport", "requests")
     try:
         if transport == "requests":
-            server = loopback.shared()
+            server = loopback.shared(lambda req, ordinal: loopback.Reply(200, {"Content-Type": "application/json", "Set-Cookie": "srvsession=LEAKED-BY-THE-SERVER; Path=/", "ETag": '"v1"'}, b"{}"))
             schema = schemathesis.openapi.from_dict(doc).configure(base_url=server.url + inp["base"])
         else:
             from vfw.harness import apps
@@ -466,7 +466,12 @@ def check_wire(ctx: Ctx, inp) -> None:
         if extra:
             ctx.disagree("wire:unexpected-header-added", f"headers {extra} are neither standard client headers nor part of the case", input=inp, request=req.as_json())
         if req.header("Cookie") is not None and not any(p["in"] == "cookie" for p in inp["params"]):
-            ctx.disagree("wire:unexpected-header-added", "a Cookie header was sent although the case has no cookies", input=inp, request=req.as_json())
+            ctx.disagree("wire:unexpected-header-added", f"a Cookie header was sent although the case has no cookies: {req.header('Cookie')!r}", input=inp, request=req.as_json())
+        elif req.header("Cookie") is not None:
+            sent_names = {x.split("=", 1)[0] for x in req.header("Cookie").split("; ") if "=" in x}
+            foreign = sorted(sent_names - {p["name"] for p in inp["params"] if p["in"] == "cookie"})
+            if foreign:
+                ctx.disagree("wire:unexpected-cookie-added", f"cookies {foreign} are not part of the case: {req.header('Cookie')!r}", input=inp, request=req.as_json())
 
 
 def _cookie_unquote(value: str) -> str:
@@ -623,7 +628,7 @@ def check_swagger2(ctx: Ctx, inp) -> None:
     transport = inp["transport"]
     try:
         if transport == "requests":
-            server = loopback.shared()
+            server = loopback.shared(lambda req, ordinal: loopback.Reply(200, {"Content-Type": "application/json", "Set-Cookie": "srvsession=LEAKED-BY-THE-SERVER; Path=/", "ETag": '"v1"'}, b"{}"))
             schema = schemathesis.openapi.from_dict(doc).configure(base_url=server.url + inp["base"])
         else:
             from vfw.harness import apps
